@@ -115,6 +115,22 @@ static Len oplen(Ctx &c, const Seg &s) {
   } else l.n = rel(c, s, s.max + 2);
   return l;
 }
+// A size no allocator can deliver, or one whose sum with the stored bytes / whose rounding to the allocation
+// granule (MPT_align, 8) wraps around. Such a grow request must be refused and leave the queue as it is.
+static size_t huge_size(Ctx &c, const Seg &s, const char *&kind) {
+  size_t k = c.range(0, 9);
+  switch (c.pick(9)) {
+    case 0: kind = "SIZE_MAX-k"; return SIZE_MAX - k;
+    case 1: kind = "SIZE_MAX-len-k"; return SIZE_MAX - s.len - k;       // len + n within the last granule: alignment wraps to 0
+    case 2: kind = "SIZE_MAX-len+1+k"; return s.len ? SIZE_MAX - s.len + 1 + (k < s.len ? k : s.len - 1) : SIZE_MAX;  // len + n wraps to a small number
+    case 3: kind = "SIZE_MAX-free-k"; return SIZE_MAX - s.free - k;
+    case 4: kind = "SIZE_MAX-max-k"; return SIZE_MAX - s.max - k;
+    case 5: kind = "SIZE_MAX/2+-k"; return SIZE_MAX / 2 - 7 + 2 * k;
+    case 6: kind = "2^62+k"; return ((size_t)1 << 62) + k;
+    case 7: kind = "2^63+-k"; return ((size_t)1 << 63) - 4 + k;
+    default: kind = "SIZE_MAX-8k"; return SIZE_MAX - 7 - 8 * k;         // multiples of the granule
+  }
+}
 static std::vector<uint8_t> opdata(Ctx &c, size_t n) {
   std::vector<uint8_t> v(n);
   if (n <= 6) c.bytes(v.data(), n);
@@ -136,8 +152,8 @@ static int find_cmp(const void *e, void *a) {  // no throwing here: library fram
   return memcmp(e, f->want, f->esz) ? 1 : 0;
 }
 
-enum Op { Push, Unshift, Pop, Shift, Pre, Post, Crop, Set, Get, Empty, Find, String, Align, Resize, Prepare, NOps };
-static const char *kOp[] = {"qpush", "qunshift", "qpop", "qshift", "qpre", "qpost", "crop", "set", "get", "empty", "find", "string", "align", "resize", "prepare"};
+enum Op { Push, Unshift, Pop, Shift, Pre, Post, Crop, Set, Get, Empty, Find, String, Align, Resize, Prepare, HugeGrow, NOps };
+static const char *kOp[] = {"qpush", "qunshift", "qpop", "qshift", "qpre", "qpost", "crop", "set", "get", "empty", "find", "string", "align", "resize", "prepare", "huge-grow"};
 
 static void note(Ctx &c, Op op, bool ok, bool both, bool &nt) {
   char l[LabelLen];
@@ -210,7 +226,7 @@ static void run_c(Ctx &c) {
   bool nt = false;
   unsigned steps = 0;
   while (c.more() && steps++ < 200) {
-    Op op = (Op)c.weighted({10, 8, 10, 8, 4, 4, 10, 6, 6, 5, 5, 4, 8, 5, 3});
+    Op op = (Op)c.weighted({10, 8, 10, 8, 4, 4, 10, 6, 6, 5, 5, 4, 8, 5, 3, 5});  // new operations are appended: operation bytes of older corpus files keep their meaning
     Seg s = seg(q);
     size_t n0 = m.size();
     char what[160];
@@ -464,6 +480,37 @@ static void run_c(Ctx &c) {
         note(c, op, ok, s.wrapped && n != s.max && n, nt);
         break;
       }
+      case HugeGrow: {
+        // grow requests that cannot be served: refused, content/len/storage as before
+        const char *kind = "";
+        size_t n = huge_size(c, s, kind);
+        bool viaprepare = c.flip();
+        char l[LabelLen];
+        snprintf(l, sizeof l, "huge:%s", kind);
+        c.label(l);
+        c.label(viaprepare ? "huge:prepare" : "huge:resize");
+        if (n0) c.label(s.wrapped ? "huge:on-wrapped" : "huge:on-contiguous"); else c.label(s.max ? "huge:on-empty" : "huge:on-no-storage");
+        c.logf("> %s(%zu = %s)   [off %zu len %zu max %zu low %zu high %zu]", viaprepare ? "prepare" : "resize", n, kind, s.off, s.len, s.max, s.low, s.high);
+        paint_stack();
+        bool ok;
+        if (viaprepare) {
+          size_t r = mpt_queue_prepare(q, n);
+          snprintf(what, sizeof what, "prepare(%zu = %s) = %zu", n, kind, r);
+          c.logf("  %s", what);
+          ok = r != 0;
+          if (ok) VP_CHECK(c, q->len <= q->max && r == q->max - q->len && r >= n, "prepare-size", "%s: %zu bytes unused (max %zu len %zu)", what, q->max - q->len, q->max, q->len);
+        } else {
+          void *r = mpt_queue_resize(q, n);
+          snprintf(what, sizeof what, "resize(%zu = %s) = %s", n, kind, r ? "ptr" : "NULL");
+          c.logf("  %s", what);
+          ok = r != 0;
+          if (ok) VP_CHECK(c, q->max == n, "resize-capacity", "%s: capacity is %zu", what, q->max);
+        }
+        if (!ok && (q->max != s.max)) c.label("huge:refused-capacity-changed");
+        note(c, op, ok, false, nt);
+        if (!ok && s.wrapped) { c.label("both-segments:huge-grow-refused"); nt = true; }  // the refusal path ran on wrapped content
+        break;
+      }
       default: {
         size_t n = s.max > 12000 ? c.range(0, 8) : c.near({0, 1, s.free, s.free + 1, s.free + 8, 64}, 200);
         c.logf("> prepare(%zu)   [off %zu len %zu max %zu low %zu high %zu]", n, s.off, s.len, s.max, s.low, s.high);
@@ -486,8 +533,8 @@ static void run_c(Ctx &c) {
 struct CxxQueue : public io::queue {
   ::mpt::queue *raw() { return &_d; }
 };
-enum XOp { XPrepare, XPush, XUnshift, XPop, XShift, XWrite, XRead, XPeek, NXOps };
-static const char *kXOp[] = {"cxx:prepare", "cxx:push", "cxx:unshift", "cxx:pop", "cxx:shift", "cxx:write", "cxx:read", "cxx:peek"};
+enum XOp { XPrepare, XPush, XUnshift, XPop, XShift, XWrite, XRead, XPeek, XHuge, NXOps };
+static const char *kXOp[] = {"cxx:prepare", "cxx:push", "cxx:unshift", "cxx:pop", "cxx:shift", "cxx:write", "cxx:read", "cxx:peek", "cxx:huge-grow"};
 static void xnote(Ctx &c, XOp op, bool ok, bool both, bool &nt) {
   char l[LabelLen];
   snprintf(l, sizeof l, "%s:%s", kXOp[op], ok ? "ok" : "refused");
@@ -509,7 +556,7 @@ static void run_cxx(Ctx &c) {
   bool nt = false;
   unsigned steps = 0;
   while (c.more() && steps++ < 200) {
-    XOp op = (XOp)c.weighted({2, 8, 6, 8, 8, 5, 5, 5});
+    XOp op = (XOp)c.weighted({2, 8, 6, 8, 8, 5, 5, 5, 3});  // appended, see run_c
     Seg s = seg(q);
     size_t n0 = m.size();
     char what[160];
@@ -565,6 +612,44 @@ static void run_cxx(Ctx &c) {
         }
         if (!nodata) VP_CHECK(c, d[n] == 0xCD, "target-overrun", "%s wrote behind the %zu byte target buffer", what, n);
         xnote(c, op, r, s.wrapped && n <= n0 && (op == XPop ? n > s.high : n > s.low), nt);
+        break;
+      }
+      case XHuge: {
+        // every path of the wrapper that ends in mpt_queue_prepare, with a size that cannot be served:
+        // prepare(n), push/unshift(NULL = zero fill, n), write(n, -, 0) ("part 0 reserves count bytes")
+        const char *kind = "";
+        size_t n = huge_size(c, s, kind);
+        size_t via = c.pick(4);
+        static const char *kVia[] = {"prepare", "push", "unshift", "write"};
+        char l[LabelLen];
+        snprintf(l, sizeof l, "cxx:huge:%s", kind);
+        c.label(l);
+        snprintf(l, sizeof l, "cxx:huge:%s", kVia[via]);
+        c.label(l);
+        if (n0) c.label(s.wrapped ? "cxx:huge:on-wrapped" : "cxx:huge:on-contiguous"); else c.label("cxx:huge:on-empty");
+        c.logf("> %s(%zu = %s)   [off %zu len %zu max %zu low %zu high %zu]", kVia[via], n, kind, s.off, s.len, s.max, s.low, s.high);
+        paint_stack();
+        bool ok;
+        if (via == 0) {
+          ok = cq.prepare(n);
+          snprintf(what, sizeof what, "io::queue::prepare(%zu = %s) = %d", n, kind, ok);
+          c.logf("  %s", what);
+          if (ok) VP_CHECK(c, q->len <= q->max && q->max - q->len >= n, "prepare-size", "%s: %zu bytes unused (max %zu len %zu)", what, q->max - q->len, q->max, q->len);
+        } else if (via == 3) {
+          ssize_t r = cq.write(n, "", 0);
+          snprintf(what, sizeof what, "io::queue::write(%zu = %s, -, 0) = %zd", n, kind, r);
+          c.logf("  %s", what);
+          ok = r != -1;
+          if (ok) VP_CHECK(c, r == (ssize_t)n && q->len <= q->max && q->max - q->len >= n, "prepare-size", "%s: %zu bytes unused (max %zu len %zu)", what, q->max - q->len, q->max, q->len);
+        } else {
+          ok = via == 1 ? cq.push(0, n) : cq.unshift(0, n);
+          snprintf(what, sizeof what, "io::queue::%s(NULL, %zu = %s) = %d", kVia[via], n, kind, ok);
+          c.logf("  %s", what);
+          VP_CHECK(c, !ok, "over-ask-accepted", "%s: that many bytes cannot have been stored", what);
+        }
+        if (!ok && q->max != s.max) c.label("cxx:huge:refused-capacity-changed");
+        xnote(c, op, ok, false, nt);
+        if (!ok && s.wrapped) { c.label("both-segments:cxx:huge-grow-refused"); nt = true; }
         break;
       }
       case XWrite: {
@@ -702,7 +787,7 @@ static Target t = {
     "C13",
     "random: initial (capacity 0..64 or 2100..6000, offset, fill) drawn directly into an exact-size malloc block (wrapped in > half of the cases; also content touching the storage end, "
     "no storage) x history of up to 200 operations over qpush/qunshift (data or NULL=zero fill), qpop/qshift (buffer or NULL), qpre/qpost, crop, set, get, empty (+ emulation of mpt_queue_load: "
-    "write into the unused parts, len += n), find(esz), string, align(pos), resize, prepare; lengths and positions near 0/1/low/high/len/free/off (+-2) or uniform, rare SIZE_MAX-sized over-asks. "
+    "write into the unused parts, len += n), find(esz), string, align(pos), resize, prepare; lengths and positions near 0/1/low/high/len/free/off (+-2) or uniform, rare SIZE_MAX-sized over-asks; grow requests (resize, prepare, io::queue prepare/push/unshift/write(n,-,0)) with sizes that cannot be served: SIZE_MAX-k, SIZE_MAX-len-k, SIZE_MAX-len+1+k (sum wraps), SIZE_MAX-free-k, SIZE_MAX-max-k, around SIZE_MAX/2, 2^62, 2^63, multiples of 8 below SIZE_MAX. "
     "model std::deque<uint8_t>; full read-back (raw ring, mpt_queue_get, two segments) after every step. "
     "non-trivial: an operation that succeeded touched both segments of a wrapped queue (or created/removed the wrap); distinct by hash of the draw sequence.",
     run,
